@@ -331,7 +331,7 @@ func runC08(c *Ctx) {
 	}
 	{
 		base := cases
-		for rep := 0; rep < c.Pick(3, 40); rep++ {
+		for rep := 0; rep < c.Pick(3, 1500); rep++ {
 			rng := c.Rng(rep)
 			for _, b := range base {
 				b.Hosts = 2 + rng.Intn(3)
@@ -356,7 +356,7 @@ func runC08(c *Ctx) {
 			c08Run(c, i, k)
 		}
 	}
-	for i := 0; i < c.Pick(6, 60); i++ {
+	for i := 0; i < c.Pick(6, 1200); i++ {
 		if c.Mine(i) {
 			c08FreshPrepare(c, i, 2+i%2, []string{"", "lz4", "snappy"}[i%3], []time.Duration{2 * time.Millisecond, 500 * time.Microsecond, 5 * time.Millisecond}[i%3])
 		}
@@ -380,7 +380,10 @@ type slowCache struct {
 	delay time.Duration
 }
 
-func (c *slowCache) Store(id string, e *proxycore.PreparedEntry) { time.Sleep(c.delay); c.inner.Store(id, e) }
+func (c *slowCache) Store(id string, e *proxycore.PreparedEntry) {
+	time.Sleep(c.delay)
+	c.inner.Store(id, e)
+}
 func (c *slowCache) Load(id string) (*proxycore.PreparedEntry, bool) { return c.inner.Load(id) }
 
 // c08FreshPrepare: a client PREPAREs a statement nobody has seen and EXECUTEs it the moment the PREPARE reply arrives;
